@@ -310,8 +310,9 @@ def res_sid_truthy(ops):
 
 
 # ------------------------------------------------------------------------------------------------------------------
-def systematic_cases(fw):
-    """small exhaustive family: every single-fault variation of the canonical conversations"""
+def systematic_cases(fw, cfgs=None, spacings=(0, 1, 3)):
+    """exhaustive family: every single-fault variation (11 faults at every position) of 6 canonical conversations, under
+    each configuration in `cfgs` (default: all 10); asyncio: with the given numbers of loop iterations between ops"""
     base = dict(c04.DEFAULT_CFG)
     convs = [
         [["open"], ["welcome", 1234], ["goodbye", "normal"], ["lost", True]],
@@ -326,16 +327,16 @@ def systematic_cases(fw):
     ]
     faults = [["lost", False], ["leave", None], ["disconnect"], ["goodbye", "normal"], ["welcome", 99], ["abort", "noauth"],
               ["challenge"], ["other"], ["published", 9, 9], ["call", 1, [], [], None], ["subscribe", 1, None]]
-    cfgs = [base, dict(base, challenge="sig"), dict(base, leave_raises=True), dict(base, leave_super=False),
-            dict(base, join_raises=True), dict(base, welcome="deny"), dict(base, welcome="raise"),
-            dict(base, disc_raises=True), dict(base, lenient=True), dict(base, challenge="none")]
+    all_cfgs = [base, dict(base, challenge="sig"), dict(base, leave_raises=True), dict(base, leave_super=False),
+                dict(base, join_raises=True), dict(base, welcome="deny"), dict(base, welcome="raise"),
+                dict(base, disc_raises=True), dict(base, lenient=True), dict(base, challenge="none")]
     out = []
     for conv in convs:
-        for cfg in cfgs:
+        for cfg in (all_cfgs if cfgs is None else [all_cfgs[i] for i in cfgs]):
             variants = [conv] + [conv[:p] + [f] + conv[p:] for p in range(1, len(conv) + 1) for f in faults]
             for ops in variants:
                 if fw == "aio":
-                    for spacing in (0, 1, 3):
+                    for spacing in spacings:
                         out.append({"cfg": cfg, "ops": aio_schedule(ops, lambda o, k=spacing: k)})
                 else:
                     out.append({"cfg": cfg, "ops": ops})
@@ -349,7 +350,8 @@ def run(ck):
         "local disconnect / transport loss inserted at random positions, API calls after the end, user callbacks "
         "(onConnect/onWelcome/onChallenge/onJoin/onLeave/onDisconnect) returning or raising per a random configuration, two "
         "transport behaviours after close(); plus the systematic family: 6 canonical conversations x 10 configurations x "
-        "every single fault at every position (asyncio: with 0/1/3 loop iterations between ops).  Run on the real "
+        "every single fault (11) at every position (asyncio: with 0/1/3 loop iterations between ops; quick: the whole "
+        "family under the default configuration, a sample under the other nine).  Run on the real "
         "ApplicationSession under Twisted and asyncio and on the Gallina model; compared per op: callbacks (with the "
         "session id visible inside onLeave), messages sent, transport close, completion of every tracked future, API "
         "exceptions; end state (session id, transport, goodbye flag, id generator, table sizes).  non-trivial = a session "
@@ -368,17 +370,21 @@ def run(ck):
     ok, out = vlib.coq_make(["Model/SessionRun.vo"])
     if not ok:
         raise RuntimeError("SessionRun build failed: " + out[-1500:])
-    n_hist = 500 if ck.quick() else 15000
+    n_hist = 250 if ck.quick() else 15000
     jobs = []
-    shards = 8
+    shards = 4 if ck.quick() else 8
     for fw in FRAMEWORKS:
         rng = ck.rng(f"hist/{fw}")
         cases = [dict(c) for c in c04.load_corpus("C06") if c.get("fw", fw) == fw]
         for c in cases: c.pop("fw", None)
-        sysc = systematic_cases(fw)
         if ck.quick():
+            # the whole fault-at-every-position family under the default configuration (asyncio: no / three loop
+            # iterations between ops), a sample of it under the nine other configurations
             r2 = ck.rng(f"sys/{fw}")
-            sysc = r2.sample(sysc, min(len(sysc), 700))
+            rest = systematic_cases(fw, cfgs=range(1, 10))
+            sysc = systematic_cases(fw, cfgs=[0], spacings=(0, 3)) + r2.sample(rest, min(len(rest), 250))
+        else:
+            sysc = systematic_cases(fw)
         cases += sysc
         cases += [gen_c06_case(rng, fw) for _ in range(n_hist)]
         per = (len(cases) + shards - 1) // shards
